@@ -368,3 +368,51 @@ Theorem C10_missing_id_example :
     generate r s (types_equal r) = Err (ETypeNotFound m).
 Proof. exact V.Proofs.ExamplesMissingId.missing_id_example. Qed.
 Print Assumptions C10_missing_id_example.
+
+(** the other two verdicts of the run-time checkers (Proofs/MissingIdVerdicts.v).
+    [field_verdict r s t f]: the closure below the field's root with the ids of the entry's typed
+    parameters as stop list (a position answered by a parent parameter is not expanded; at the root
+    the recorded type name must match as well).  It is the outcome of the model's
+    [resolve_field_type_path] at that field, [freach] = the field reaches [m] under the entry's
+    parameters ([reaches_missing r (params_from_scale_info (t_params t)) (f_ty f) (f_type_name f) m]) *)
+From V Require Proofs.MissingIdVerdicts.
+
+Theorem C10_field_verdict_model :
+  forall r s rank m, V.Model.MissingId.generable_but r s rank m ->
+  forall t f, in_reg r (f_ty f) \/ f_ty f = m ->
+    match V.Corr.CheckTG.field_verdict r s t f with
+    | V.Corr.CheckTG.DClean =>
+        ~ V.Proofs.MissingIdGen.freach r m (params_from_scale_info (t_params t)) f /\
+        exists p, resolve_field_type_path r s (f_ty f) (params_from_scale_info (t_params t))
+                                          (f_type_name f) = Ok p
+    | V.Corr.CheckTG.DFail x =>
+        x = V.Corr.CheckTG.FMissing m /\
+        V.Proofs.MissingIdGen.freach r m (params_from_scale_info (t_params t)) f /\
+        resolve_field_type_path r s (f_ty f) (params_from_scale_info (t_params t))
+                                (f_type_name f) = Err (ETypeNotFound m)
+    | V.Corr.CheckTG.DUnsure => True
+    end.
+Proof. exact V.Proofs.MissingIdVerdicts.field_verdict_model. Qed.
+Print Assumptions C10_field_verdict_model.
+
+(** [gen_verdict]: entries in registry order, fields in field order, the first field that is not
+    clean decides.  With unique item paths and no recursive derives it is the outcome of the model's
+    [generate] (any comparison function) *)
+Theorem C10_gen_verdict_model :
+  forall r s rank m, V.Model.MissingId.generable_but r s rank m ->
+  forall teq, V.Model.Renumber.unique_item_paths r s -> dr_recursive (s_dreg s) = [] ->
+    match fst (V.Corr.CheckTG.gen_verdict r s) with
+    | V.Corr.CheckTG.DClean => exists items, generate r s teq = Ok items
+    | V.Corr.CheckTG.DFail x =>
+        x = V.Corr.CheckTG.FMissing m /\ generate r s teq = Err (ETypeNotFound m)
+    | V.Corr.CheckTG.DUnsure => True
+    end.
+Proof. exact V.Proofs.MissingIdVerdicts.gen_verdict_model. Qed.
+Print Assumptions C10_gen_verdict_model.
+
+(** on the example registry of [C10_missing_id_example] the generation verdict is a definite one *)
+Theorem C10_gen_verdict_example :
+  V.Corr.CheckTG.gen_verdict V.Proofs.MissingIdGuard.missing_ex_reg V.Model.ExamplesTG.ex_set =
+  (V.Corr.CheckTG.DFail (V.Corr.CheckTG.FMissing 7), false).
+Proof. exact V.Proofs.ExamplesMissingId.missing_ex_gen_verdict. Qed.
+Print Assumptions C10_gen_verdict_example.
